@@ -200,6 +200,11 @@ def step (pool : Pool) (cmd : Json) : Pool × Json :=
           | none => (pool, .str "$raise:type")
         | _, _ => (pool, err "bad fillnp")
       | none => (pool, err "bad fillnp")
+    | "$dup", [hn, h] =>
+      -- a clone with identical content (the model of a pickle round trip)
+      match strOf? hn, (strOf? h).bind pool.get? with
+      | some hn, some a => (pool.set hn a, .str "$ok")
+      | _, _ => (pool, err "bad dup")
     | "$prune", [hn, h] =>
       match strOf? hn, (strOf? h).bind pool.get? with
       | some hn, some a => (pool.set hn (prune a), .str "$ok")
